@@ -11,6 +11,7 @@ mod sup;
 mod triggers;
 mod util;
 mod walsim;
+mod wiresim;
 mod worker;
 
 use std::io::{BufRead, Write};
